@@ -16,7 +16,7 @@ ANCHORS = [("model/model_hertz_paraboloidal.py", "hertz_paraboloidal"),
            ("model/residuals.py", "model_direction_agnostic")]
 MIN_EVALS = {"quick": 5000, "thorough": 100000}
 TIMEOUT = {"quick": 600, "thorough": 3000}
-N_CASES = {"quick": 1500, "thorough": 40000}     # per shard
+N_CASES = {"quick": 1500, "thorough": 300000}     # per shard
 RULE = ("case = (model, parameter vector in bounds, indentation array with "
         "samples at / one ulp around the contact point, orientation, call "
         "path model_func vs NaniteFitModel.model); distinct by digest of "
